@@ -365,13 +365,18 @@ def part_corners():
         check(outcome(helpers.neighbors, a, 7) == ("exc", ValueError), "dir 7b")
         check(helpers.neighbors(lonely, 7) == [], "dir 7 without links")
         check(helpers.neighbors(lonely, 7) == [], "dir 7 without links (2)")
-    # unhashable arguments cannot be looked up when caching is enabled
+    # unhashable arguments cannot be looked up when caching is enabled: such a
+    # query is simply never cached (since ffc7541; a TypeError before that) and
+    # leaves the statistics alone
     Vertex.NEIGHBOR_CACHING = True
-    check(outcome(helpers.neighbors, a, [0]) == ("exc", TypeError), "unhashable")
-    check(
-        outcome(helpers.neighbors, lonely, [0]) == ("exc", TypeError),
-        "unhashable, no links",
-    )
+    stats_before = Vertex.total_cache_stats()
+    for _ in range(2):
+        check(
+            outcome(helpers.neighbors, a, [0]) == ("exc", ValueError),
+            "unhashable",
+        )
+        check(helpers.neighbors(lonely, [0]) == [], "unhashable, no links")
+    check(Vertex.total_cache_stats() == stats_before, "unhashable: not counted")
     Vertex.NEIGHBOR_CACHING = False
     check(outcome(helpers.neighbors, a, [0]) == ("exc", ValueError), "unhashable off")
     check(helpers.neighbors(lonely, [0]) == [], "unhashable off, no links")
